@@ -9,8 +9,8 @@ cd /verif
 touch mutants/phaseB.tsv
 checks_for() {
   case "$1" in
-    url/hostparser.go)   echo "C01 C07 C08 C09 C05 C15 C02 C03 C16";;
-    url/parser.go)       echo "C01 C05 C06 C02 C03 C04 C15 C13 C16 C19 C10 C12 C11 C17 C20";;
+    url/hostparser.go)   echo "C01 C07 C08 C09 C19 C15 C05 C03";;
+    url/parser.go)       echo "C01 C05 C19 C06 C04 C15 C02 C13 C03 C16 C10 C12";;
     url/url.go)          echo "C05 C19 C04 C03 C12 C13 C01 C11 C02 C06";;
     url/searchparams.go) echo "C11 C12 C13 C16 C02 C17";;
     url/codesets.go)     echo "C10 C01 C05 C04";;
@@ -25,8 +25,12 @@ checks_for() {
 }
 # order: the files in which a surviving mutant is most likely to matter first
 : > /var/tmp/mutB.todo
-for f in url/searchparams.go url/url.go url/path.go url/inputstring.go url/hostparser.go url/parser.go url/parseroptions.go url/errorhandler.go canonicalizer/ errors/ url/codesets.go; do
-  grep -a "SURVIVES-TESTS" mutants/phaseA.tsv | awk -F'\t' -v f="$f" 'index($2,f)==1' >> /var/tmp/mutB.todo
+for ops in "neg-if binop del-assign del-call del-branch del-incdec del-not" "bool const+1 const-1"; do
+ for f in url/errorhandler.go url/searchparams.go url/url.go url/path.go url/inputstring.go url/parser.go url/hostparser.go url/parseroptions.go canonicalizer/ errors/ url/codesets.go; do
+  for op in $ops; do
+   grep -a "SURVIVES-TESTS" mutants/phaseA.tsv | awk -F'\t' -v f="$f" -v op="$op" 'index($2,f)==1 && $4==op' >> /var/tmp/mutB.todo
+  done
+ done
 done
 for j in $(seq 0 $((W-1))); do
  (
